@@ -12,8 +12,10 @@ RULE = ("grid of rows: CFA register {sp, fp} x offsets {aligned, unaligned, not 
 ASSUMPTIONS = ["stack reader is a pure partial function", "row class and guard cases as in Props/C05.v"]
 TRUSTED_BASE = ["modelled not verified: gimli (CFI parsing, row computation)"]
 
-OFFS = {"x86": [8, 16, 24, 32, 64, 12, 4, 0, 8 * 0xffff, 8 * 0x10000, -8, 20, 1 << 40],
-        "a64": [0, 16, 32, 48, 96, 8, 24, 12, 16 * 0xffff, 16 * 0x10000, -16, 1 << 40]}
+OFFS = {"x86": [8, 16, 24, 32, 64, 12, 4, 0, 8 * 0xffff, 8 * 0x10000, -8, 20, 1 << 40, 0x8010, 0x8008, 0x10000,
+                0x20010, 0x3fff8, 0x40000, 0x40008, 0x7ff8],
+        "a64": [0, 16, 32, 48, 96, 8, 24, 12, 16 * 0xffff, 16 * 0x10000, -16, 1 << 40, 0x8010, 0x8000, 0x10000,
+                0x20010, 0x3fff0, 0x40000, 0x40010, 0x7ff0]}
 SLOTS = [-8, -16, -24, -32, -12, -40, 8, 0]
 
 def spec(arch, row, first, regs, mem):
@@ -58,7 +60,7 @@ def generate(rng, tier):
                 c = rng.below(12)
                 v = 0 if c == 0 else (0x20000 + rng.below(0x1000) if c < 8 else (b + 8 * rng.below(140)))
                 memd[b + 8 * i] = v
-        s.mem("S", sorted(memd.items()))
+        mem_line = s.add("mem S 0")          # placeholder, filled in below
         rows = []
         for i in range(64):
             cfa = ("r", rng.choice([R["sp"], R["sp"], R["fp"]]), rng.choice(OFFS[arch]))
@@ -69,6 +71,11 @@ def generate(rng, tier):
         fdes = [dict(start=0x1000 + 0x10 * i, len=0x10, rows=[(0, r)]) for i, r in enumerate(rows)]
         s.module_dwarf("M", 0x100000, 0x100000 + 0x1000 + 0x10 * len(rows) + 0x100, 0x100000, 0, pres, fdes, rng, shuffle=True)
         s.add("new U"); s.add("add U M")
+        def want(a):
+            # make the slot readable (most of the time) so that the specification is defined
+            if 0 <= a <= M64 and a % 8 == 0 and a not in memd and rng.chance(7, 8):
+                c = rng.below(12)
+                memd[a] = 0 if c == 0 else (0x20000 + rng.below(0x1000) if c < 8 else (lo_base + 8 * rng.below(140)))
         for i, r in enumerate(rows):
             for st in range(3 if tier == "quick" else 6):
                 base = hi_base if rng.chance(1, 5) else lo_base
@@ -78,6 +85,10 @@ def generate(rng, tier):
                 a = 0x100000 + 0x1000 + 0x10 * i + rng.choice([0, 1, 0xf])
                 kind = "ip" if first else "ra"
                 addr = a if first else a + 1
+                cfa_v = (sp if r["cfa"][1] == R["sp"] else fp) + r["cfa"][2]
+                for rule in (r["fp"], r["ra"]):
+                    if rule[0] == "o":
+                        want(cfa_v + rule[1])
                 if arch == "x86":
                     rav = a
                     regs = s.regs_x86(a, sp, fp)
@@ -88,7 +99,13 @@ def generate(rng, tier):
                 ln = s.add("unwind U F %s %s %s S" % (kind, hx(addr), regs))
                 s.meta[ln] = {"row": i, "rowdef": r, "first": first, "sp": sp, "fp": fp, "rav": rav, "arch": arch}
                 s.tags[ln] = "%s:%s:%s:%s:%d" % (arch, "sp" if r["cfa"][1] == R["sp"] else "fp", r["ra"][0], r["fp"][0], first)
+        items = sorted(memd.items())
+        s.lines[mem_line - 1] = "mem S %d %s" % (len(items), " ".join("%s %s" % (hx(a), hx(v)) for a, v in items))
         out.append(("rows-%s-%d" % (arch, rep), s))
+    # the compressed rules themselves, at the hook level (model correspondence)
+    for arch in ("x86", "a64"):
+        nm, sc = suites.exec_suite(rng, arch, 3000 if tier == "quick" else 60000)
+        out.append((nm, sc))
     return out
 
 def translatable_a64(row):
